@@ -12,7 +12,7 @@ for mp in sorted(glob.glob(os.path.join(HERE, "seeded", "*", "meta.json"))):
             first = c["report"][0][:110].replace("|", "/")
             break
     valid = m.get("demo_clean_exit") == 0 and m.get("demo_patched_exit") == 1 and m.get("suite_passes", True)
-    rows.append((m["seed_id"], m.get("summary", ""), "yes" if valid else f"no ({m.get('invalid_reason', 'demo/suite')})", "; ".join(det), first))
+    rows.append((m["seed_id"], (m.get("summary", "") + " — needs: " + m.get("needs_to_manifest", "")).replace("|", "/"), "yes" if valid else f"no ({m.get('invalid_reason', 'demo/suite')})", "; ".join(det), first))
 print("| seed | what it changes / needs | confirmed (demo 0->1, suite passes) | checks run (quick tier, seed 1) | first report |")
 print("|---|---|---|---|---|")
 for r in rows:
